@@ -85,9 +85,17 @@ def run(rep: core.Report):
     adrs_ok = sp.simplify(env.get("adrs", 0) - (names["i"] * names["num_band"] + names["j"])) == 0 and sp.simplify(env.get("adrsT", 0) - (names["j"] * names["num_band"] + names["i"])) == 0
     rep.instance("R03b", DYN, "make_Hermitian", "adrs = i*n + j, adrsT = j*n + i", adrs_ok, "the two addresses are not transposes of each other", line=tu.line(mh))
     s = cidx.Analyzer([tu]).summary("make_Hermitian")
-    lp = {v: (str(lo), str(hi)) for v, lo, hi, line, par in s.loops}
-    rep.instance("R03b", DYN, "make_Hermitian", f"loops {lp}", lp.get("i") == ("0", "num_band") and lp.get("j", ("", ""))[1] == "num_band" and lp.get("j", ("", ""))[0].startswith("i@"),
-                 "the loops do not cover every pair j >= i", line=tu.line(mh))
+    lp = {v: (lo, hi) for v, lo, hi, line, par in s.loops}
+    ok_loops = False
+    if "i" in lp and "j" in lp:
+        ilo, ihi = lp["i"]
+        jlo, jhi = lp["j"]
+        isyms = [x for x in sp.sympify(jlo).free_symbols if str(x).startswith("i@")]
+        # every unordered pair {i, j} including the diagonal is visited: j starts at i (or below: the update is idempotent)
+        starts_at_or_below_i = sp.sympify(jlo) == 0 or (len(isyms) == 1 and sp.simplify(sp.sympify(jlo) - isyms[0]).is_nonpositive)
+        ok_loops = str(ilo) == "0" and str(ihi) == "num_band" and str(jhi) == "num_band" and bool(starts_at_or_below_i)
+    rep.instance("R03b", DYN, "make_Hermitian", f"loops { {k: (str(a), str(b)) for k, (a, b) in lp.items()} }", ok_loops,
+                 "the loops do not visit every pair j >= i, diagonal included: the imaginary part of a diagonal element (or a whole pair) is left as the kernel produced it, so D(q) is not Hermitian for force constants without permutation symmetry", line=tu.line(mh))
 
     # R03c
     cls = core.find_def(API, "Phonopy")
@@ -116,7 +124,8 @@ def selftest():
     b("make_Hermitian only on the serial arm", DYN, "                              i, j);\n            }\n        }\n    }\n\n    make_Hermitian(dynamical_matrix, num_patom * 3);", "                              i, j);\n            }\n        }\n        make_Hermitian(dynamical_matrix, num_patom * 3);\n    }\n", "R03a", "dym_get_dynamical_matrix_at_q")
     b("imaginary part added instead of subtracted", DYN, "            mat[adrs][1] -= mat[adrsT][1];", "            mat[adrs][1] += mat[adrsT][1];", "R03b", "mat[adrs][1]")
     b("transpose partner stored without conjugation", DYN, "            mat[adrsT][1] = -mat[adrs][1];", "            mat[adrsT][1] = mat[adrs][1];", "R03b", "mat[adrsT][1]")
-    b("inner loop starts at zero", DYN, "        for (j = i; j < num_band; j++) {\n            adrs = i * num_band + j;", "        for (j = 0; j < num_band; j++) {\n            adrs = i * num_band + j;", "R03b", "loops")
+    b("diagonal skipped", DYN, "        for (j = i; j < num_band; j++) {\n            adrs = i * num_band + j;", "        for (j = i + 1; j < num_band; j++) {\n            adrs = i * num_band + j;", "R03b", "loops")
+    V.append(dict(name="inner loop starts at zero (idempotent update)", kind="neutral", file=DYN, old="        for (j = i; j < num_band; j++) {\n            adrs = i * num_band + j;", new="        for (j = 0; j < num_band; j++) {\n            adrs = i * num_band + j;"))
     b("python reference skips symmetrisation", PYDM, "        self._dynamical_matrix = (dm + dm.conj().transpose()) / 2", "        self._dynamical_matrix = dm", "R03a", "_run_py_dynamical_matrix")
     b("unit cell masses not updated", API, "        self._unitcell.set_masses(u_masses)\n", "", "R03c", "set_masses")
     return V
